@@ -406,3 +406,8 @@ for _p in ("C03", "C04", "C06", "C07", "C08", "C09", "C10", "C11", "C12", "C13",
 # once and empty, a context starts clean, the caller's maps never enter a pool
 for _p in ("C06", "C09", "C10", "C11", "C12", "C17", "C18"):
     PROPS[_p]["pooltrace"] = True
+    PROPS[_p]["design"] = [dict(module="PoolDiscipline", cfg="MC_Pool.cfg")]
+    PROPS[_p]["deviations"] = [dict(module="PoolDiscipline", cfg="MC_Pool_%s.cfg" % d, inv="Discipline") for d in ("double", "useafter", "dirty", "caller")]
+
+PROPS["C20"]["deviations"] = [dict(module="AttrCache", cfg="MC_C20_dev1.cfg", inv="CacheUnobservable (KeyWithoutType)"),
+                              dict(module="AttrCache", cfg="MC_C20_dev2.cfg", inv="CacheUnobservable (FirstIndexOnly)")]
